@@ -244,10 +244,52 @@ func genOps(t *rapid.T, c *Case) {
 	}
 }
 
+// genLongCardOps: additions of long cardinality constraints, many unit clauses (mostly against a current
+// model, so that they falsify literals of the constraints in place) and solves.
+func genLongCardOps(t *rapid.T, c *Case) {
+	conj := baseSems(*c)
+	n := c.N
+	nOps := rapid.IntRange(3, 14).Draw(t, "nops")
+	for i := 0; i < nOps; i++ {
+		switch k := rapid.IntRange(0, 9).Draw(t, "what"); {
+		case k <= 2 || i == nOps-1:
+			c.Ops = append(c.Ops, Op{Kind: "solve"})
+		case k <= 4:
+			ls := gen.DistinctLits(t, n, gen.Uniform(t, 6, n, "len"), "l")
+			op := Op{Kind: "card", Lits: ls, K: gen.Uniform(t, 2, 3, "k")}
+			conj = append(conj, op.sem())
+			c.Ops = append(c.Ops, op)
+		default:
+			op := Op{Kind: "clause", Lits: []int{gen.Lit(t, n, "u")}}
+			if models := oracle.Models(n, func(m uint64) bool { return oracle.AllTrue(conj, m) }); len(models) > 0 && gen.Chance(t, 3, 4, "keepSat") {
+				// a unit that keeps the conjunction satisfiable: true in some current model
+				m := models[gen.Uniform(t, 0, len(models)-1, "which")]
+				if !oracle.LitTrue(op.Lits[0], m) {
+					op.Lits[0] = -op.Lits[0]
+				}
+				op.Aim = "unit-true-in-a-model"
+			}
+			conj = append(conj, op.sem())
+			c.Ops = append(c.Ops, op)
+		}
+	}
+}
+
 func genCase(front string) func(t *rapid.T) Case {
 	return func(t *rapid.T) Case {
 		c := Case{Front: front}
 		switch front {
+		case "long-card":
+			// long cardinality constraints with a small degree: most literals are unwatched, and unit
+			// clauses appended later falsify literals of the unwatched tail of constraints the solver holds
+			c.Front = "card"
+			c.N = gen.Uniform(t, 9, 13, "n")
+			for i, m := 0, gen.Uniform(t, 1, 3, "m"); i < m; i++ {
+				ls := gen.DistinctLits(t, c.N, gen.Uniform(t, 7, c.N, "len"), "l")
+				c.Constrs = append(c.Constrs, gen.PC{Kind: "atleast", Lits: ls, K: gen.Uniform(t, 2, 3, "k")})
+			}
+			genLongCardOps(t, &c)
+			return c
 		case "hard":
 			// a base with real conflicts (threshold 3-SAT / pigeonhole minus a pigeon): learned clauses and
 			// learned units exist when constraints are added
@@ -287,6 +329,7 @@ func init() {
 	vf.Register(
 		vf.Sub[Case]{Name: "cnf-base", Quick: 12000, Thorough: 150000, Gen: genCase("slicenb"), Check: check, Floor: 0.4, Rule: "base CNF via ParseSliceNb (n<=8)" + tail},
 		vf.Sub[Case]{Name: "conflict-rich-base", Quick: 1500, Thorough: 20000, Gen: genCase("hard"), Check: check, Floor: 0.4, Rule: "base = threshold 3-SAT at n 10..13 or a satisfiable pigeonhole formula (12 variables): the solver has learned clauses and units when constraints are added (variables up to 14)" + tail},
+		vf.Sub[Case]{Name: "long-cardinality", Quick: 3000, Thorough: 40000, Gen: genCase("long-card"), Check: check, Floor: 0.5, Rule: "base = 1..3 cardinality constraints of 7..n literals and degree 2..3 over n in 9..13 variables; history of 3..14 steps: Solve, addition of further long cardinality constraints, and mostly unit clauses that stay consistent with a current model (they falsify literals in the unwatched part of constraints the solver already holds)" + tail},
 		vf.Sub[Case]{Name: "card-base", Quick: 8000, Thorough: 100000, Gen: genCase("card"), Check: check, Floor: 0.4, Rule: "base cardinality problem via ParseCardConstrs" + tail},
 		vf.Sub[Case]{Name: "pb-base", Quick: 8000, Thorough: 100000, Gen: genCase("pb"), Check: check, Floor: 0.4, Rule: "base PB problem via ParsePBConstrs" + tail},
 	)
